@@ -108,9 +108,14 @@ def read(gwy, ent: str, attr: str):
     return val
 
 
-def new_world():
+def new_world(dhw: bool = True):
+    import copy
+
     w = G.GwyWorld()
-    gwy = w.add_gateway(config={"disable_discovery": True, "enforce_known_list": False}, **SCHEMA)
+    schema = copy.deepcopy(SCHEMA)
+    if not dhw:
+        del schema[CTL]["stored_hotwater"]
+    gwy = w.add_gateway(config={"disable_discovery": True, "enforce_known_list": False}, **schema)
     w.set_time(dt(2024, 1, 1, 12, 0, 0))
     return w, gwy
 
@@ -286,8 +291,10 @@ def shard_attr_expiry(arg) -> E.Tally:
     for j, (name, (ent, attr)) in enumerate(ATTR_EXPIRY):
         if j % n != i:
             continue
-        for other in (None, "T_rp(00,2)", "SP_arr(00+01,1)"):
-            w, gwy = new_world()
+        for other, dhw in ((None, True), ("T_rp(00,2)", True), ("SP_arr(00+01,1)", True), (None, False), ("T_rp(00,2)", False)):
+            if not dhw and ent == "HW":
+                continue
+            w, gwy = new_world(dhw)
             try:
                 frame, eff = L[name]
                 w.rx(frame)
@@ -304,11 +311,13 @@ def shard_attr_expiry(arg) -> E.Tally:
                 for _ in range(3):
                     reads.append(read(gwy, ent, attr))
                     w.loop.settle()
+                w.set_time(w.now() + td(days=3))  # ... and it must not come back later
+                reads.append(read(gwy, ent, attr))
                 t.nontrivial += 1
-                rep = {"attr_expiry": name, "other": other}
+                rep = {"attr_expiry": name, "other": other, "dhw": dhw}
                 if reads[0] is not None:
                     t.bad("C14:expired-value-still-reported:first-read", f"{name} then +{life * 2 + td(seconds=30)}: {ent}.{attr} reads {reads} (was {v0!r}, lifetime {life})", rep)
-                elif any(r is not None for r in reads[1:]):
+                if any(r is not None for r in reads[1:]):
                     t.bad(f"C14:expired-value-lingers:{attr}", f"{name}: {ent}.{attr} reads {reads}", rep)
             finally:
                 w.close()
